@@ -532,7 +532,14 @@ pub fn validate_with(c: &Case, req: Request<Bytes>, prov: &mut Provider) -> ValO
     let polls_seen = std::cell::Cell::new(0u64);
     let (ready_before, fut_before) = { let st = prov.0.lock().unwrap(); (st.ready_polls, st.future_polls) };
     let r = catch_unwind(AssertUnwindSafe(|| {
-        if c.vec_reqs && !c.req_ops.is_empty() {
+        if c.vec_reqs && c.req_ops.len() == 1 && c.req_ops[0].0 == 'N' {
+            // the growable container built by its constructor from the three lists as given
+            let a: Vec<&str> = c.always.iter().map(|s| s.as_str()).collect();
+            let b: Vec<&str> = c.ifreq.iter().map(|s| s.as_str()).collect();
+            let p: Vec<&str> = c.prefixes.iter().map(|s| s.as_str()).collect();
+            let reqs = VecSignedHeaderRequirements::new(&a, &b, &p);
+            { let (r, n) = block_on(sigv4_validate_request(req, &c.region, &c.service, prov, now, &reqs, opts)); polls_seen.set(n); r }
+        } else if c.vec_reqs && !c.req_ops.is_empty() {
             use scratchstack_aws_signature::SignedHeaderRequirements;
             let mut reqs = VecSignedHeaderRequirements::default();
             for (op, name) in &c.req_ops {
